@@ -187,6 +187,11 @@ def gen_imports(rng, tree, relpath, root="proj", externals=True, n=None):
         elif k == 8 and externals:
             e = rng.choice(EXTERNALS)
             st = rng.choice([f"import {e}", f"from {e} import thing", f"import {e} as q"])
+        elif k == 9 and rng.random() < 0.6:
+            # a name below an existing module that is NOT a scanned module (a compiled extension, a typo, a file that an
+            # exclusion removes): no import edge may come out of it, with or without a level limit
+            missing = rng.choice(["nomod", "gone.deep", "_speedups"])
+            st = rng.choice([f"import {t}.{missing}", f"from {t}.{missing} import thing", f"import {t}.{missing} as q"])
         else:
             st = f"import {t}"
         out.append((chain, st))
